@@ -20,6 +20,8 @@ enum Expect {
     Type(i32, bool, String, Option<(i64, i64, i64, i64, i64, i64)>),
     /// mktime: set of instants
     Set(Vec<i64>),
+    /// mktime on a right/ file: the reference shows offset `o` at this count iff tz-rs lists the instant among its results
+    Member(i32, bool),
 }
 
 struct Rec {
@@ -116,6 +118,13 @@ fn compare(refname: &str, recs: &[Rec], answers: &[String], glibc: bool, st: &mu
                 };
                 if !ok {
                     return Err(Failure::new("ref", format!("{}: tz-rs reports offset {off} dst {dst} abbreviation {abbr:?} fields {fields:?}; {refname} reports {a:?}", r.what), json!({"what": r.what, "reference": refname, "reference_answer": a, "load": r.cmds.0, "query": r.cmds.1})));
+                }
+            }
+            Expect::Member(o, member) => {
+                let p: Vec<&str> = a.split_whitespace().collect();
+                let shows = p.first().and_then(|x| x.parse::<i32>().ok()) == Some(*o);
+                if shows != *member {
+                    return Err(Failure::new("ref", format!("{}: tz-rs {} this instant for that local time, but {refname} shows offset {:?} there (candidate offset {o})", r.what, if *member { "lists" } else { "does not list" }, p.first()), json!({"what": r.what, "reference": refname, "reference_answer": a, "load": r.cmds.0, "query": r.cmds.1})));
                 }
             }
             Expect::Set(s) => {
@@ -299,6 +308,42 @@ pub fn run(ctx: &Ctx) -> Outcome {
                     Err(e) => return Err(Failure::new("ref", format!("{name}: lookup at {u} failed with {e:?}"), json!({"what": name}))),
                 }
             }
+            // mktime on right/ files: candidates u = L - o are asked at their count F(u); glibc shows offset o there iff u is a result
+            if right {
+                let mut offs: Vec<i32> = zr.local_time_types().iter().map(|t| t.ut_offset()).collect();
+                offs.sort();
+                offs.dedup();
+                let trs = zr.transitions();
+                for (k, t) in trs.iter().enumerate() {
+                    let Some(ut) = oleap::g(&leaps, t.unix_leap_time()) else { continue };
+                    if ut < 78796800 || ut > hi || (k + fi) % (mk_every * 3) != 0 {
+                        continue;
+                    }
+                    let off_before = if k == 0 { zr.local_time_types()[0].ut_offset() } else { zr.local_time_types()[trs[k - 1].local_time_type_index()].ut_offset() };
+                    let off_after = zr.local_time_types()[t.local_time_type_index()].ut_offset();
+                    for base in [off_before, off_after] {
+                        for d in [-1i64, 0, 1, 10, 26, 27, 28, 1800] {
+                            let l = ut + base as i64 + d;
+                            if offs.iter().any(|o| last_u.map(|lu| l - *o as i64 >= lu).unwrap_or(true)) {
+                                continue;
+                            }
+                            let cv = cal::civil_from_unix(l as i128);
+                            let found = DateTime::find(cv.y as i32, cv.mo as u8, cv.d as u8, cv.h as u8, cv.mi as u8, cv.s as u8, 0, zr).map_err(|e| Failure::new("ref", format!("{name}: find({cv:?}) failed {e:?}"), json!({"what": name})))?;
+                            let list = found.into_inner();
+                            let set: Vec<i64> = list.iter().filter_map(|k| if let FoundDateTimeKind::Normal(d) = k { Some(d.unix_time()) } else { None }).collect();
+                            // every listed instant must come from one of the file's offsets, and there must be no spurious gap entry when an instant exists
+                            if !set.is_empty() && list.len() != set.len() {
+                                return Err(Failure::new("ref", format!("{name} local time {cv:?}: search lists valid instants {set:?} and a gap entry at the same time"), json!({"what": name})));
+                            }
+                            for o in &offs {
+                                let u = l - *o as i64;
+                                st.class("mktime_right_membership");
+                                b.q(oleap::f(&leaps, u) as i64, u, Rec { what: format!("{name} local time {:04}-{:02}-{:02}T{:02}:{:02}:{:02}, candidate instant {u}", cv.y, cv.mo, cv.d, cv.h, cv.mi, cv.s), exp: Expect::Member(*o, set.contains(&u)), refs: (true, false), cmds: Default::default() });
+                            }
+                        }
+                    }
+                }
+            }
             // mktime
             if !right {
                 let mut offs: Vec<i32> = zr.local_time_types().iter().map(|t| t.ut_offset()).collect();
@@ -313,6 +358,8 @@ pub fn run(ctx: &Ctx) -> Outcome {
                 offs.sort();
                 offs.dedup();
                 let trs = zr.transitions();
+                // one caller-provided buffer reused for every local time of this file (mktime callers do that)
+                let mut reused = [None; 4];
                 for (k, t) in trs.iter().enumerate() {
                     let tt = t.unix_leap_time();
                     if tt < 0 || tt > hi || (k + fi) % mk_every != 0 {
@@ -329,6 +376,13 @@ pub fn run(ctx: &Ctx) -> Outcome {
                             }
                             let cv = cal::civil_from_unix(l as i128);
                             let found = DateTime::find(cv.y as i32, cv.mo as u8, cv.d as u8, cv.h as u8, cv.mi as u8, cv.s as u8, 0, zr).map_err(|e| Failure::new("ref", format!("{name}: find({cv:?}) failed {e:?}"), json!({"what": name})))?;
+                            let (e0, l0, u0) = (found.earliest().map(|d| d.unix_time()), found.latest().map(|d| d.unix_time()), found.unique().map(|d| d.unix_time()));
+                            {
+                                let r = DateTime::find_n(&mut reused, cv.y as i32, cv.mo as u8, cv.d as u8, cv.h as u8, cv.mi as u8, cv.s as u8, 0, zr).map_err(|e| Failure::new("ref", format!("{name}: find_n({cv:?}) failed {e:?}"), json!({"what": name})))?;
+                                if r.is_exhaustive() && (r.earliest().map(|d| d.unix_time()), r.latest().map(|d| d.unix_time()), r.unique().map(|d| d.unix_time())) != (e0, l0, u0) {
+                                    return Err(Failure::new("ref", format!("{name} local time {cv:?}: with a reused buffer the earliest/latest/unique instants are {:?}/{:?}/{:?}, the allocating search gives {e0:?}/{l0:?}/{u0:?}", r.earliest().map(|d| d.unix_time()), r.latest().map(|d| d.unix_time()), r.unique().map(|d| d.unix_time())), json!({"what": name})));
+                                }
+                            }
                             let mut set: Vec<i64> = found.into_inner().iter().filter_map(|k| if let FoundDateTimeKind::Normal(d) = k { Some(d.unix_time()) } else { None }).collect();
                             set.sort();
                             if set.len() != 1 {
